@@ -81,6 +81,9 @@ func WorkerMain(check Check, args []string) int {
 		return 3
 	}
 	debug.SetMaxStack(256 << 20)
+	// a runaway case must die in this worker, not take the sandbox down
+	lim := uint64(envInt("VERIF_WORKER_MEM_MB", 6144)) << 20
+	syscall.Setrlimit(syscall.RLIMIT_AS, &syscall.Rlimit{Cur: lim, Max: lim})
 	if os.Getenv("VERIF_WORKER_PROCS") == "" {
 		runtime.GOMAXPROCS(1)
 	}
@@ -223,6 +226,7 @@ func Run(check Check, o *Options) int {
 		o.Workers = envInt("VERIF_WORKERS", n)
 	}
 	plan := check.Plan(o.Tier, o.Seed)
+	os.RemoveAll(filepath.Join(o.Root, "replays", id))
 	total := NewResult()
 	var notes []string
 	exhaustive := len(plan) > 0
